@@ -492,6 +492,13 @@ def c_duration_mul_const(site, fx):
     # Duration::mul_f32 by a constant factor in [0, 16]: cannot go negative / NaN, cannot overflow for GUI-supplied millisecond values
     if site.family != "duration" or not site.what.endswith("mul_f32"):
         return False
+    # "cannot overflow for GUI-supplied millisecond values" holds only for durations that come from the GUI: a `Duration::MAX`
+    # (say, as the stand-in for a missing clock) fed into the product is exactly the value that overflows
+    slice_ok = True
+    if len(site.ops) > 0 and "Duration::MAX" in show(site.ops[0]):
+        slice_ok = False
+    if not slice_ok:
+        return False
     c = deep_strip(site.ops[1]) if len(site.ops) > 1 else None
     if isinstance(c, tuple) and c[0] == "const" and isinstance(c[1], float) and 0.0 <= c[1] <= 16.0:
         return True
